@@ -48,6 +48,8 @@ type codecX struct {
 	fxSafe      map[string]bool
 	fxDropsErr  []string
 	fxRegistry  [][2]string
+	// sendPacket (memoised)
+	send *sendFacts
 }
 
 // ---- small AST helpers ----
@@ -988,12 +990,461 @@ func (c *codecX) extractRecv() recvFacts {
 		}
 	}
 	r.readsFull = okErr && okPayload && okRet
-	// sendPacket: the prefix counts everything after itself
-	if sp := pi.bodyText(pi.funcDecl("sendPacket")); strings.Contains(sp, "length := len(header) + len(payload) - 4") &&
-		strings.Contains(sp, "binary.BigEndian.PutUint32(header[:4], uint32(length))") {
-		r.sendLenOK = true
-	}
+	// sendPacket: the prefix counts everything after itself (closed statement matcher, see extractSend)
+	r.sendLenOK = c.extractSend().lenOK
 	return r
+}
+
+// ---- sendPacket ----
+
+// sendFacts: what the closed statement-sequence matcher read off sendPacket (packet.go), marshalPacket and the
+// conn.sendPacket wrapper (conn.go).
+type sendFacts struct {
+	pos, connPos, marshalPos string
+	total                    bool     // every successfully marshalled packet is handed to w.Write, whole, header first
+	lenOK                    bool     // length := len(header)+len(payload)-4 and PutUint32(header[:4], uint32(length)) recognised
+	marshalOK                bool     // marshalPacket = m.marshalPacket() / m.MarshalBinary(), nothing else
+	connDelegates            bool     // conn.sendPacket = [lock;] return sendPacket(c, m), and it is the servers' sender
+	shape                    []string // normalised statements of sendPacket, locals renamed to w, m, header, payload, err, length
+}
+
+// canonical statements of the one accepted shape (debug statements may stand anywhere after the marshal error check)
+const (
+	sendStMarshal    = "header, payload, err := marshalPacket(m)"
+	sendStMarshalErr = "if err != nil { return <error> }"
+	sendStLength     = "length := len(header) + len(payload) - 4"
+	sendStPrefix     = "binary.BigEndian.PutUint32(header[:4], uint32(length))"
+	sendStWriteHdr   = "if _, err := w.Write(header); err != nil { return <error> }"
+	sendStWritePl    = "if len(payload) > 0 { if _, err := w.Write(payload); err != nil { return <error> } }"
+	sendStWritePlU   = "if _, err := w.Write(payload); err != nil { return <error> }"
+	sendStReturnNil  = "return nil"
+	sendStDebug      = "debug"
+)
+
+// sendDebugOnly: s is `debug(args)` with call-free arguments (conversions and len allowed), or an if/else-if chain
+// over package-level boolean constants whose branches are such statements. It cannot leave the function.
+func (c *codecX) sendDebugOnly(s ast.Stmt) bool {
+	pi := c.x.root
+	pureArgs := func(call *ast.CallExpr) bool {
+		ok := true
+		for _, a := range call.Args {
+			ast.Inspect(a, func(n ast.Node) bool {
+				switch t := n.(type) {
+				case *ast.CallExpr:
+					if tv, found := pi.info.Types[t.Fun]; found && tv.IsType() {
+						return true
+					}
+					if isIdent(t.Fun, "len") {
+						return true
+					}
+					ok = false
+				case *ast.FuncLit:
+					ok = false
+				case *ast.UnaryExpr:
+					if t.Op == token.ARROW {
+						ok = false
+					}
+				}
+				return ok
+			})
+		}
+		return ok
+	}
+	var block func(list []ast.Stmt) bool
+	var one func(s ast.Stmt) bool
+	block = func(list []ast.Stmt) bool {
+		for _, s := range list {
+			if !one(s) {
+				return false
+			}
+		}
+		return true
+	}
+	one = func(s ast.Stmt) bool {
+		switch t := s.(type) {
+		case *ast.EmptyStmt:
+			return true
+		case *ast.ExprStmt:
+			call, ok := t.X.(*ast.CallExpr)
+			return ok && isIdent(call.Fun, "debug") && pureArgs(call)
+		case *ast.IfStmt:
+			id, ok := t.Cond.(*ast.Ident)
+			if !ok || t.Init != nil {
+				return false
+			}
+			if _, isConst := pi.info.Uses[id].(*types.Const); !isConst || pi.info.Uses[id].Parent() != pi.pkg.Scope() {
+				return false
+			}
+			if !block(t.Body.List) {
+				return false
+			}
+			switch e := t.Else.(type) {
+			case nil:
+				return true
+			case *ast.BlockStmt:
+				return block(e.List)
+			case *ast.IfStmt:
+				return one(e)
+			}
+		}
+		return false
+	}
+	if _, empty := s.(*ast.EmptyStmt); empty {
+		return false
+	}
+	return one(s)
+}
+
+// sendErrReturn: body is the single statement `return X` with X not nil and mentioning the error variable e.
+func sendErrReturn(body *ast.BlockStmt, e string) bool {
+	if body == nil || len(body.List) != 1 {
+		return false
+	}
+	rs, ok := body.List[0].(*ast.ReturnStmt)
+	if !ok || len(rs.Results) != 1 || isIdent(rs.Results[0], "nil") {
+		return false
+	}
+	mentions := false
+	ast.Inspect(rs.Results[0], func(n ast.Node) bool {
+		if id, ok := n.(*ast.Ident); ok && id.Name == e {
+			mentions = true
+		}
+		return true
+	})
+	return mentions
+}
+
+// sendWriteOf: s is `if _, E := W.Write(X); E != nil { return <error mentioning E> }` -> X.
+func (c *codecX) sendWriteOf(s ast.Stmt, w string) (string, bool) {
+	pi := c.x.root
+	is, ok := s.(*ast.IfStmt)
+	if !ok || is.Init == nil || is.Else != nil {
+		return "", false
+	}
+	as, ok := is.Init.(*ast.AssignStmt)
+	if !ok || as.Tok != token.DEFINE || len(as.Lhs) != 2 || len(as.Rhs) != 1 || !isIdent(as.Lhs[0], "_") {
+		return "", false
+	}
+	eid, ok := as.Lhs[1].(*ast.Ident)
+	if !ok || eid.Name == "_" {
+		return "", false
+	}
+	call, ok := as.Rhs[0].(*ast.CallExpr)
+	if !ok || len(call.Args) != 1 || pi.nodeText(call.Fun) != w+".Write" {
+		return "", false
+	}
+	arg, ok := call.Args[0].(*ast.Ident)
+	if !ok {
+		return "", false
+	}
+	if pi.nodeText(is.Cond) != eid.Name+" != nil" || !sendErrReturn(is.Body, eid.Name) {
+		return "", false
+	}
+	return arg.Name, true
+}
+
+// sendLeaves: can s leave the function or the enclosing statement list (return, branch, panic, os.Exit, goto)?
+func sendLeaves(pi *pkgInfo, s ast.Stmt) bool {
+	leaves := false
+	ast.Inspect(s, func(n ast.Node) bool {
+		switch t := n.(type) {
+		case *ast.ReturnStmt, *ast.BranchStmt:
+			leaves = true
+		case *ast.CallExpr:
+			if f := pi.nodeText(t.Fun); f == "panic" || f == "os.Exit" || f == "runtime.Goexit" {
+				leaves = true
+			}
+		}
+		return true
+	})
+	return leaves
+}
+
+func (c *codecX) extractSend() *sendFacts {
+	if c.send != nil {
+		return c.send
+	}
+	pi, u := c.x.root, c.u
+	r := &sendFacts{}
+	c.send = r
+	c.extractMarshalPacket(r)
+	c.extractConnSend(r)
+	fd := pi.funcDecl("sendPacket")
+	if fd == nil || fd.Body == nil {
+		u.fail("sendPacket not found")
+		return r
+	}
+	r.pos = pi.pos(fd)
+	// signature: (W io.Writer, M encoding.BinaryMarshaler) error
+	var pnames, ptypes []string
+	for _, f := range fd.Type.Params.List {
+		for _, n := range f.Names {
+			pnames = append(pnames, n.Name)
+			ptypes = append(ptypes, pi.nodeText(f.Type))
+		}
+	}
+	if len(pnames) != 2 || ptypes[0] != "io.Writer" || ptypes[1] != "encoding.BinaryMarshaler" ||
+		fd.Type.Results == nil || len(fd.Type.Results.List) != 1 || len(fd.Type.Results.List[0].Names) != 0 ||
+		pi.nodeText(fd.Type.Results.List[0].Type) != "error" {
+		u.fail("sendPacket: signature is not (w io.Writer, m encoding.BinaryMarshaler) error (%s)", r.pos)
+		return r
+	}
+	W, M := pnames[0], pnames[1]
+	var H, P, E, L string // header, payload, err, length as named in the source
+	var toks []string     // the non-debug statements, classified
+	var nodes []ast.Stmt
+	sawLen, sawPrefix := false, false
+	for _, s := range fd.Body.List {
+		if _, empty := s.(*ast.EmptyStmt); empty {
+			continue
+		}
+		tok := ""
+		txt := pi.nodeText(s)
+		switch t := s.(type) {
+		case *ast.AssignStmt:
+			if t.Tok == token.DEFINE && len(t.Lhs) == 3 && len(t.Rhs) == 1 && H == "" {
+				a, ok1 := t.Lhs[0].(*ast.Ident)
+				b, ok2 := t.Lhs[1].(*ast.Ident)
+				e, ok3 := t.Lhs[2].(*ast.Ident)
+				if ok1 && ok2 && ok3 && a.Name != "_" && b.Name != "_" && e.Name != "_" && a.Name != b.Name &&
+					pi.nodeText(t.Rhs[0]) == "marshalPacket("+M+")" {
+					H, P, E = a.Name, b.Name, e.Name
+					tok = sendStMarshal
+				}
+			}
+			if tok == "" && t.Tok == token.DEFINE && len(t.Lhs) == 1 && len(t.Rhs) == 1 && H != "" && L == "" {
+				if l, ok := t.Lhs[0].(*ast.Ident); ok && l.Name != "_" {
+					rhs := pi.nodeText(t.Rhs[0])
+					if rhs == "len("+H+") + len("+P+") - 4" || rhs == "len("+P+") + len("+H+") - 4" {
+						L = l.Name
+						tok = sendStLength
+						sawLen = true
+					}
+				}
+			}
+		case *ast.ExprStmt:
+			if H != "" && L != "" && txt == "binary.BigEndian.PutUint32("+H+"[:4], uint32("+L+"))" {
+				tok = sendStPrefix
+				sawPrefix = true
+			}
+		case *ast.ReturnStmt:
+			if txt == "return nil" {
+				tok = sendStReturnNil
+			}
+		case *ast.IfStmt:
+			switch {
+			case E != "" && t.Init == nil && t.Else == nil && pi.nodeText(t.Cond) == E+" != nil" && sendErrReturn(t.Body, E):
+				tok = sendStMarshalErr
+			case H != "":
+				if x, ok := c.sendWriteOf(t, W); ok && x == H {
+					tok = sendStWriteHdr
+				} else if ok && x == P {
+					tok = sendStWritePlU
+				} else if t.Init == nil && t.Else == nil && len(t.Body.List) == 1 &&
+					(pi.nodeText(t.Cond) == "len("+P+") > 0" || pi.nodeText(t.Cond) == "len("+P+") != 0") {
+					if x, ok := c.sendWriteOf(t.Body.List[0], W); ok && x == P {
+						tok = sendStWritePl
+					}
+				}
+			}
+		}
+		if tok == "" && c.sendDebugOnly(s) {
+			r.shape = append(r.shape, sendStDebug)
+			continue
+		}
+		if tok == "" {
+			tok = "other: " + txt
+		}
+		toks = append(toks, tok)
+		nodes = append(nodes, s)
+		r.shape = append(r.shape, tok)
+	}
+	r.lenOK = sawLen && sawPrefix
+	want := []string{sendStMarshal, sendStMarshalErr, sendStLength, sendStPrefix, sendStWriteHdr, sendStWritePl, sendStReturnNil}
+	match := len(toks) == len(want)
+	for i := 0; match && i < len(want); i++ {
+		if toks[i] != want[i] && !(want[i] == sendStWritePl && toks[i] == sendStWritePlU) {
+			match = false
+		}
+	}
+	// the debug statements must stand after the marshal error check (they read header/payload)
+	if match {
+		seen := 0
+		for _, t := range r.shape {
+			if t == sendStDebug && seen < 2 {
+				match = false
+				u.fail("sendPacket: debug statement before the marshal error check (%s)", r.pos)
+			}
+			if t != sendStDebug {
+				seen++
+			}
+		}
+	}
+	if !match {
+		reported := false
+		for i, t := range toks {
+			if strings.HasPrefix(t, "other: ") {
+				reported = true
+				if strings.Contains(t, W+".Write(") {
+					u.fail("sendPacket: a write that is not `if _, err := w.Write(header|payload); err != nil { return <error> }` at %s: %s", pi.pos(nodes[i]), strings.TrimPrefix(t, "other: "))
+				} else if sendLeaves(pi, nodes[i]) {
+					u.fail("sendPacket: a statement other than the marshal/write error checks can leave the function, so a marshalled packet may never be written, at %s: %s", pi.pos(nodes[i]), strings.TrimPrefix(t, "other: "))
+				} else {
+					u.fail("sendPacket: unrecognised statement at %s: %s", pi.pos(nodes[i]), strings.TrimPrefix(t, "other: "))
+				}
+			}
+		}
+		if !reported {
+			u.fail("sendPacket: statements are not, in this order, marshal; error check; length; PutUint32 prefix; write header; write payload; return nil (%s): %q", r.pos, toks)
+		}
+	}
+	if !r.lenOK && match {
+		match = false
+	}
+	r.total = match && r.marshalOK
+	return r
+}
+
+// extractMarshalPacket: marshalPacket(M) is
+//
+//	if X, OK := M.(packetMarshaler); OK { return X.marshalPacket() }
+//	RH, RE = M.MarshalBinary()
+//	return
+//
+// with named results (RH, RP, RE): every error it reports is the marshaller's.
+func (c *codecX) extractMarshalPacket(r *sendFacts) {
+	pi, u := c.x.root, c.u
+	fd := pi.funcDecl("marshalPacket")
+	if fd == nil || fd.Body == nil {
+		u.fail("marshalPacket not found")
+		return
+	}
+	r.marshalPos = pi.pos(fd)
+	bad := func() {
+		u.fail("marshalPacket: body is not `if x, ok := m.(packetMarshaler); ok { return x.marshalPacket() }; header, err = m.MarshalBinary(); return` (%s)", r.marshalPos)
+	}
+	var pn, rn []string
+	for _, f := range fd.Type.Params.List {
+		for _, n := range f.Names {
+			pn = append(pn, n.Name)
+		}
+	}
+	if fd.Type.Results != nil {
+		for _, f := range fd.Type.Results.List {
+			for _, n := range f.Names {
+				rn = append(rn, n.Name)
+			}
+		}
+	}
+	var stmts []ast.Stmt
+	for _, s := range fd.Body.List {
+		if _, empty := s.(*ast.EmptyStmt); !empty {
+			stmts = append(stmts, s)
+		}
+	}
+	if len(pn) != 1 || len(rn) != 3 || len(stmts) != 3 {
+		bad()
+		return
+	}
+	M := pn[0]
+	is, ok := stmts[0].(*ast.IfStmt)
+	if !ok || is.Init == nil || is.Else != nil {
+		bad()
+		return
+	}
+	as, ok := is.Init.(*ast.AssignStmt)
+	if !ok || len(as.Lhs) != 2 {
+		bad()
+		return
+	}
+	X, OK := pi.nodeText(as.Lhs[0]), pi.nodeText(as.Lhs[1])
+	if pi.nodeText(is) != fmt.Sprintf("if %s, %s := %s.(packetMarshaler); %s { return %s.marshalPacket() }", X, OK, M, OK, X) ||
+		pi.nodeText(stmts[1]) != fmt.Sprintf("%s, %s = %s.MarshalBinary()", rn[0], rn[2], M) ||
+		pi.nodeText(stmts[2]) != "return" {
+		bad()
+		return
+	}
+	r.marshalOK = true
+}
+
+// extractConnSend: conn.sendPacket is `[R.Lock(); defer R.Unlock();] return sendPacket(R, M)`, conn declares no Write of
+// its own (the writer is the embedded io.WriteCloser), and the sender handed to every newPktMgr call resolves its
+// sendPacket method to conn.sendPacket.
+func (c *codecX) extractConnSend(r *sendFacts) {
+	pi, u := c.x.root, c.u
+	fd := pi.funcDecl("conn.sendPacket")
+	if fd == nil || fd.Body == nil {
+		u.fail("conn.sendPacket not found")
+		return
+	}
+	r.connPos = pi.pos(fd)
+	R := recvVar(fd)
+	var pn []string
+	for _, f := range fd.Type.Params.List {
+		for _, n := range f.Names {
+			pn = append(pn, n.Name)
+		}
+	}
+	var texts []string
+	for _, s := range fd.Body.List {
+		if _, empty := s.(*ast.EmptyStmt); !empty {
+			texts = append(texts, pi.nodeText(s))
+		}
+	}
+	ok := false
+	if R != "" && len(pn) == 1 {
+		ret := "return sendPacket(" + R + ", " + pn[0] + ")"
+		switch {
+		case len(texts) == 1 && texts[0] == ret:
+			ok = true
+		case len(texts) == 3 && texts[0] == R+".Lock()" && texts[1] == "defer "+R+".Unlock()" && texts[2] == ret:
+			ok = true
+		}
+	}
+	if !ok {
+		u.fail("conn.sendPacket: body is not `[c.Lock(); defer c.Unlock();] return sendPacket(c, m)` (%s): %q", r.connPos, texts)
+	}
+	for _, t := range pi.methodsNamed("Write") {
+		if t == "conn" {
+			ok = false
+			u.fail("conn declares its own Write method: sendPacket(c, m) no longer writes to the embedded io.WriteCloser (%s)", r.connPos)
+		}
+	}
+	// the pipeline's sender
+	ncalls := 0
+	for _, f := range pi.files {
+		ast.Inspect(f, func(n ast.Node) bool {
+			call, isCall := n.(*ast.CallExpr)
+			if !isCall || !isIdent(call.Fun, "newPktMgr") || len(call.Args) < 1 {
+				return true
+			}
+			ncalls++
+			tv, found := pi.info.Types[call.Args[0]]
+			if !found || tv.Type == nil {
+				ok = false
+				u.fail("newPktMgr: sender of unknown type at %s", pi.pos(call))
+				return true
+			}
+			obj, _, _ := types.LookupFieldOrMethod(tv.Type, true, pi.pkg, "sendPacket")
+			fn, isFn := obj.(*types.Func)
+			recvT := ""
+			if isFn {
+				if sig, isSig := fn.Type().(*types.Signature); isSig && sig.Recv() != nil {
+					recvT = types.TypeString(sig.Recv().Type(), func(*types.Package) string { return "" })
+				}
+			}
+			if recvT != "*conn" && recvT != "conn" {
+				ok = false
+				u.fail("newPktMgr: the sender's sendPacket is %q, not conn.sendPacket, at %s", recvT, pi.pos(call))
+			}
+			return true
+		})
+	}
+	if ncalls == 0 {
+		ok = false
+		u.fail("no newPktMgr(sender) call found: cannot tie packetManager.sender to conn.sendPacket")
+	}
+	r.connDelegates = ok
 }
 
 // ---- kinds ----
@@ -1189,6 +1640,18 @@ func extractCodecTables(x *extractor) {
 	u.pf("def recvReadsFull : Bool := %s\n", leanBool(r.readsFull))
 	u.pf("-- sendPacket: prefix = len(header) + len(payload) - 4\n")
 	u.pf("def sendLenExcludesPrefix : Bool := %s\n", leanBool(r.sendLenOK))
+	sf := c.extractSend()
+	u.pf("-- source: %s sendPacket, %s marshalPacket: closed statement sequence\n", sf.pos, sf.marshalPos)
+	u.pf("--   marshal; if err != nil {return}; length; [debug]; PutUint32 prefix; write header; write payload; return nil\n")
+	u.pf("-- with no other statement: every successfully marshalled packet is handed to w.Write, header first, whole;\n")
+	u.pf("-- sendPacket reports an error only if the marshaller or the writer did\n")
+	u.pf("def sendPacketTotal : Bool := %s\n", leanBool(sf.total))
+	u.pf("def marshalPacketDelegates : Bool := %s\n", leanBool(sf.marshalOK))
+	u.pf("-- the statements of sendPacket, locals renamed to w, m, header, payload, err, length; error values as <error>\n")
+	u.pf("def sendPacketShape : List String := %s\n", leanStrList(sf.shape))
+	u.pf("-- source: %s conn.sendPacket = [Lock; defer Unlock;] return sendPacket(c, m); conn has no Write of its own;\n", sf.connPos)
+	u.pf("-- every newPktMgr(sender) call passes a sender whose sendPacket is conn.sendPacket\n")
+	u.pf("def connSendPacketDelegates : Bool := %s\n", leanBool(sf.connDelegates))
 	c.emitFxRecv()
 	u.pf("\nend Sftp.G\n")
 }
